@@ -99,7 +99,13 @@ Singles == {[mt |-> m, conds |-> <<c>>, acts |-> <<a>>] : m \in {"anyof", "allof
 Doubles == {[mt |-> "allof", conds |-> <<c1, c2>>, acts |-> <<a1, a2>>] :
                c1 \in Conds, c2 \in {c \in Conds : c.k \in {"true", "exists", "header"} /\ ~c.neg},
                a1 \in {a \in Acts : a.k \in {"fileinto", "keep", "addflag"}}, a2 \in {a \in Acts : a.k \in {"stop", "redirect"}}}
-Init == def \in Singles \cup (IF Pairs THEN Doubles ELSE {})
+\* a condition (an action) given twice, also as the last one: the definition is legal and every copy is written
+Repeats == {[mt |-> "anyof", conds |-> <<c1, c2, c1>>, acts |-> <<a1, a2, a1>>] :
+              c1 \in {c \in Conds : c.k \in {"header", "exists", "size", "true"}},
+              c2 \in {c \in Conds : c.k = "false"},
+              a1 \in {a \in Acts : a.k \in {"addflag", "keep"} /\ a.lst = <<>>},
+              a2 \in {a \in Acts : a.k = "discard"}}
+Init == def \in Singles \cup (IF Pairs THEN Doubles ELSE {}) \cup Repeats
 Next == UNCHANGED def
 Spec == Init /\ [][Next]_def
 
